@@ -149,6 +149,17 @@ HISTORY = {
  "C06-i": ("first run: missed (lists of at most 6 entries); after long lists: C06, C05", ["C06", "C05"]),
  "C08-i": ("first run: C05 only; after wide/alias in C08: C08 monitor", ["C08", "C05"]),
  "C09-i": ("first run: missed (at most 257 machines, no high-index signaller); after the high-index signaller: C09 monitor, C05", ["C09", "C05"]),
+ "C03-i": ("first run: C05 only; after copies in the observed run: C03 monitor", ["C03", "C05"]),
+ "C05-j": ("C05 (determinism check, then monitor after copies in the observed run), C03 by correspondence", ["C05", "C03"]),
+ "C06-j": ("first run: C05 only; after the C06 framework stage compared the hooked log: C06 (correspondence)", ["C06", "C05"]),
+ "C10-j": ("first run: C05 only; after many-neighbour ni cases with aliasing twins: C10 monitor", ["C10", "C05"]),
+ "C12-i": ("first run: missed (every case on a fresh thread); after Framework::new on a re-used slice of a persistent worker: C12 monitor", ["C12"]),
+ "C14-j": ("C14, C19 (first run already; re-run after the clone_from target became a used queue: C14 monitor)", ["C14", "C19"]),
+ "C17-i": ("first run: missed (at most 3 machines on a side); big generator alone not enough (quiet again); after the crowd generator: C17 monitor", ["C17"]),
+ "C18-i": ("first run: missed; after the big/crowd generators: C18 monitor", ["C18"]),
+ "C19-i": ("first run: missed (at most 3 machines on a side); after the big generator: C19 monitor (panic)", ["C19"]),
+ "C20-i": ("first run: missed (at most 5 machines); after sessions with 65..130 machines: C20 monitor", ["C20"]),
+ "C18-j": ("not caught: needs an Integration with a non-zero trigger delay (outside the simulator model, DESIGN 12.12)", []),
 }
 
 
